@@ -458,6 +458,11 @@ func (w *Writer) ReadFrom(src io.Reader) (n int64, err error) {
 
 		w.n += nn
 		n += int64(nn)
+		if nn > 0 {
+			// Accepted bytes may leave as a non-final fragment before src
+			// fails: Flush() must still end the message then.
+			w.dirty = true
+		}
 	}
 	if err == io.EOF {
 		// NOTE: Do not flush preemptively.
